@@ -374,8 +374,8 @@ class _CEval(Evaluator):
             return TypeVal(int(m.group(1)))
         if n in _BUILTINS:
             return _BUILTINS[n]
-        if n == 'connect':
-            return Builtin('connect', None)
+        if n in ('connect', 'connect_pairs'):
+            return Builtin(n, None)
         r = self.elab.repo.resolve(c.mod, n)
         if r is not None and isinstance(r[1], ast.ClassDef):
             return ClassRef(r[0], r[1])
@@ -483,6 +483,12 @@ class _CEval(Evaluator):
                 if len(args) != 2 or kwargs:
                     raise AnalysisError(f"connect with {len(args)} arguments")
                 self.elab.connect(self.nl, args[0], args[1], self.ctx)
+                return None
+            if fn.name == 'connect_pairs':
+                if len(args) % 2 or kwargs:
+                    raise ModelFault(f"connect_pairs with an odd number of arguments: {norm(e)}")
+                for i in range(0, len(args), 2):
+                    self.elab.connect(self.nl, args[i], args[i + 1], self.ctx)
                 return None
             if kwargs:
                 raise AnalysisError(f"keyword call outside the model: {norm(e)}")
@@ -716,6 +722,28 @@ class Elaborator:
         if kw:
             raise ModelFault(f"{fc.name}.construct: unexpected keyword arguments {sorted(kw)}")
         self._body(nl, ev, fn.body)
+
+    def run_snippet(self, mod, cls, stmts, make_env, selfname, skip=None):
+        """interpret a statement list (e.g. one branch of an interface's connect method) as construct-time code.
+        make_env(elab, nl) -> (env dict, instance bound to the self name); `skip(stmt)` names bookkeeping statements
+        that are ignored.  Returns (netlist, env)."""
+        nl = Netlist()
+        self.globals = {}
+        self.touched = set()
+        env, selfinst = make_env(self, nl)
+        nl.top = selfinst
+        ctx = Ctx(selfinst, selfname, env, mod, cls)
+        ev = _CEval(self, nl, ctx)
+        for st in stmts:
+            if skip is not None and skip(st):
+                continue
+            self._body(nl, ev, [st])
+        for k, v in env.items():       # readable names for local / foreign instances
+            if isinstance(v, Inst) and v.parent is None and v.name is None and v is not selfinst:
+                v.parent, v.name = selfinst, k
+        self._static_writes(nl)
+        nl.finalize()
+        return nl, env
 
     # -- statements of construct
     def _body(self, nl, ev, stmts):
